@@ -26,7 +26,8 @@ PrecArgs == {VInt(0), VInt(1), VInt(2), VInt(15), VInt(16), VBool(TRUE), VFloat(
 FloatCalls == {Call(m, <<a>>) : m \in {"value", "min", "max"}, a \in FloatArgs}
               \cup {Call("precision", <<a>>) : a \in PrecArgs}
 
-StrVals == {VStr(<<>>), VStr(<<A, B>>), VStr(<<A, B, C>>)}
+\* "{}": text that means something to str.format / %-formatting when a message or a repr is built
+StrVals == {VStr(<<>>), VStr(<<A, B>>), VStr(<<A, B, C>>), VStr(<<123, 125>>)}
 LenNs == {VInt(0), VInt(2), VInt(3)}
 StrLenCalls ==
   {Call("len", <<n>>) : n \in LenNs \cup {VInt(-1), VBool(TRUE), VStr(<<A>>), VFloat(200)}}
@@ -45,7 +46,7 @@ StrCalls ==
   {Call("value", <<v>>) : v \in StrVals \cup {VInt(1), VNone, VBytes(<<A>>)}}
   \cup StrLenCalls
   \cup {Call("alphabet", <<v>>) : v \in {VStr(<<A, B>>), VStr(<<A, B, C>>), VStr(<<>>), VInt(1)}}
-  \cup {Call("contains", <<v>>) : v \in {VStr(<<B>>), VStr(<<C>>), VStr(<<>>), VNone}}
+  \cup {Call("contains", <<v>>) : v \in {VStr(<<B>>), VStr(<<C>>), VStr(<<>>), VStr(<<123>>), VNone}}
   \cup {Call("regex", <<v>>) : v \in {PatAPlus, PatAbAnch, PatC, PatDigitNL, PatNegCat, VBadPat("error"),
                                       VBadPat("overflow"), VInt(1)}}
 
@@ -65,6 +66,7 @@ ListValArgs ==
   { VList(<<>>), VList(<<ASchema(SInt1)>>), VList(<<ASchema(SInt1), ASchema(SStrAB)>>),
     VList(<<ASchema(SInt1), ASchema(BareInt)>>),
     VList(<<ASchema(SInt1), ELL>>), VList(<<ELL, ASchema(SInt1)>>), VList(<<ELL, ASchema(SInt1), ELL>>),
+    VList(<<ASchema(BareAny), ASchema(SInt1)>>), VList(<<ASchema(SInt1), ASchema(BareAny)>>), VList(<<ASchema(BareAny)>>),
     VList(<<ELL>>), VList(<<ELL, ELL>>), VList(<<ASchema(SInt1), ELL, ASchema(SInt1)>>),
     VList(<<ELL, ELL, ELL>>), VList(<<VInt(1)>>), VList(<<ASchema(SInt1), VNone>>),
     ASchema(BareInt), ASchema(SInt1), VInt(5), VNone, VObj("tuple12", <<>>, NoneOpt),
@@ -103,6 +105,11 @@ Calls(t) == CASE t = "int" -> IntCalls [] t = "float" -> FloatCalls [] t = "str"
 
 
 IsValueCall(c) == c.m = "value"
+\* `receiver | other` for a receiver of any type: schemas (plain, union, bare any) and non-schemas
+OrCalls == {Call("or", <<v>>) : v \in {ASchema(SInt1), ASchema(SAnyIS), ASchema(BareAny), ASchema(BareNone),
+                                       VInt(5), VNone, VEllipsis}}
+CallsWithOr(t) == Calls(t) \cup OrCalls
+
 Refinements(t) == {c \in Calls(t) : ~IsValueCall(c)}
 ValueCalls(t) == {c \in Calls(t) : IsValueCall(c)}
 
